@@ -7,7 +7,7 @@ isomorphism and accepts every renumbering; the balance model answers true exactl
 counts and charge agree; `standardize` is idempotent and permutation-invariant given the stated
 hypotheses on the opaque canonical SMILES.
 
-Correspondence on the working tree (twelve streams, regressions first):
+Correspondence on the working tree (thirteen streams, regressions first):
  1. canonicaliser, back-ends wl and nauty: model `rxn.canon` (fed with the back-end's labelling)
     = implementation's canonical graphs; specification gates on the implementation's output:
     ITS(canon r) isomorphic to ITS(r) (Lean `match.iso`) and `smiles_check(..., "ITS")` true, equal
@@ -48,6 +48,10 @@ Correspondence on the working tree (twelve streams, regressions first):
     branches, sorted by Lean), remove_atom_mapping with another separator; CanonRSMI on degenerate reactions and through
     __call__ (model `rxn.canon` incl. Err.emptyMap), remap_graph in both input forms (Lean `rxn.remap`), get_aam_pairwise_indices
     (brute force); reactions with a side RDKit rejects through the balance check, the validator entry points and FixAAM.
+ 13. (generated last) EXPLICIT MAPPED HYDROGENS: corpus reactions re-spelled with explicit [H:n] atoms that stay on their heavy atom
+    (spectators) next to ones that move (centre hydrogens), the mechanism steps of /repo/Data/Testcase/mech.json.gz, map numbers with
+    gaps; through the case functions - and gates - of streams 1-7 and 11.  NormalizeAAM.fit folds spectators, so on these inputs its
+    output is compared (Lean `match.iso`, ITS and centre) with the input re-spelled by the harness' own `fold_spectators`.
 """
 import json
 import logging
@@ -509,7 +513,10 @@ def validator_case(ctx, src, rs, n_trans, fixed=None):
         variants.append((kind, transpose_product(rs, a, b)))
     if fixed is not None:  # replay of one recorded variant
         variants = list(fixed)
-    parsed, reqs = [], []
+    # NormalizeAAM.fit folds the explicit hydrogens outside the centre: when the input has such hydrogens its output is compared
+    # with the input re-spelled the same way by the harness (`fold_spectators`), not with the input as written
+    folded = its_rc(fold_spectators(rs)) if has_h and h_census(rs)[0] else None
+    parsed, reqs, fold_at = [], [], {}
     for kind, v in variants:
         other = its_rc(v)
         case = {"stream": "validator", "source": src, "rsmi": rs, "variant": v, "kind": kind}
@@ -524,6 +531,11 @@ def validator_case(ctx, src, rs, n_trans, fixed=None):
         reqs += [iso_req(its2, its), iso_req(rc2, rc)]
         for m in ("ITS", "RC"):
             reqs.append({"cmd": "rxn.aamCheck", "method": m, "G1": enc(G2), "H1": enc(H2), "G2": enc(G), "H2": enc(H)})
+    if folded is not None:
+        for i, (kind, v, case, its2, rc2) in enumerate(parsed):
+            if kind in NORMALIZE_KINDS:
+                fold_at[i] = len(reqs)
+                reqs += [iso_req(its2, folded[1]), iso_req(rc2, folded[2])]
     replies = yield reqs
     for i, (kind, v, case, _its2, _rc2) in enumerate(parsed):
         iso_its, iso_rc, mod_its, mod_rc = replies[4 * i:4 * i + 4]
@@ -534,7 +546,22 @@ def validator_case(ctx, src, rs, n_trans, fixed=None):
                      sample={"stream": "validator", "method": m, "kind": kind, "rsmi": rs, "variant": v, "verdict": got}
                      if len(rs) < 120 else None)
             c = {**case, "method": m}
-            if kind in NORMALIZE_KINDS and not spec and (m == "RC" or not has_h):
+            if kind in NORMALIZE_KINDS and i in fold_at:
+                ctx.count(f"validator:{m}:{kind}:input_with_spectator_hydrogens")
+                if not replies[fold_at[i] + (m == "RC")]:
+                    ctx.violation(f"NormalizeAAM.fit does not preserve the reaction: the {'centre' if m == 'RC' else 'ITS'} graph of its "
+                                  "output is not isomorphic to that of the input with its spectator hydrogens (same heavy atom on "
+                                  "both sides) folded into the hydrogen counts (Lean match.iso)", c,
+                                  {"validator": got, "input_spectators_folded": fold_spectators(rs), "explicit_hydrogens": has_h})
+                elif spec and not got:
+                    ctx.violation("validator rejects a renumbering of the mapping", c, {"lean_iso": spec, "model": mod})
+                elif got != spec:
+                    ctx.violation("validator verdict differs from the Lean isomorphism decision on the ITS / centre graphs", c,
+                                  {"impl": got, "lean_iso": spec, "model": mod})
+                elif mod != spec:
+                    ctx.violation("model aamCheck differs from match.iso on the implementation's graphs", c,
+                                  {"impl": got, "lean_iso": spec, "model": mod}, no_input=True)
+            elif kind in NORMALIZE_KINDS and not spec and (m == "RC" or not has_h):
                 # NormalizeAAM.fit only re-spells (kekulised, map numbers + 1, hydrogens outside the centre folded): without
                 # explicit hydrogen atoms the result must be a renumbering; with them the centre must still be the same
                 ctx.violation(f"NormalizeAAM.fit does not preserve the reaction: the {'centre' if m == 'RC' else 'ITS'} graph of its "
@@ -1166,6 +1193,9 @@ def session_streams(ctx, pool):
 # reactant tautomer shift (amidine N/N, acid O/O, isothiourea N/N: rejected without tautomers, accepted with), pairs of
 # isomeric aromatisations that differ in soft (aromatic <-> localised) bond changes only (RC verdict depends on
 # ignore_aromaticity), and pairs of different reactions with isomorphic centres (RC accepts, ITS rejects).
+# smiles_check and smiles_check_tautomer are also called with ignore_aromaticity LEFT OUT (method left out / by position / by
+# keyword): the documented defaults (RC, aromaticity not ignored) must decide - expected verdict = Lean `match.iso` on the graphs
+# built with ignore_aromaticity=False (= the reference call with the flag passed); the aromatisation pairs tell the defaults apart.
 # All implementation calls of a table are made in one process in a shuffled order (a verdict must not depend on the
 # calls made before); tables are evaluated in child processes, up to 12 at a time (pure data in, pure data out).
 DEFAULT_GT, DEFAULT_COLS = "ground_truth", ["rxn_mapper", "graphormer", "local_mapper"]
@@ -1278,7 +1308,7 @@ def entry_eval(batch):
     light = [i for i, t in enumerate(tauts) if t is not None]
     answers = []
     for kind, m, fl, style in batch["calls"]:
-        ia, it = fl if fl is not None else (False, True)
+        ia, it = fl if fl is not None else (False, kind != "direct_taut")
         idx = list(range(len(rows))) if it else light
         mat = [["SKIP"] * len(cols) for _ in rows]
         kw = {} if fl is None else {"ignore_aromaticity": fl[0], "ignore_tautomers": fl[1]}
@@ -1290,6 +1320,15 @@ def entry_eval(batch):
                             mat[i][j] = _verdict(V.smiles_check(rows[i][c], rows[i][gt], m, ia))
                         else:
                             mat[i][j] = any(V.smiles_check(rows[i][c], t, m, ia) for t in tauts[i])
+            elif kind in ("direct", "direct_taut"):
+                # smiles_check / smiles_check_tautomer with ignore_aromaticity LEFT OUT, and check_method left out / by position / by
+                # keyword: the documented defaults (method RC, aromaticity not ignored) decide
+                f = V.smiles_check if kind == "direct" else V.smiles_check_tautomer
+                for i in idx:
+                    for j, c in enumerate(cols):
+                        a, b = rows[i][c], rows[i][gt]
+                        v = f(a, b) if m is None else (f(a, b, m) if style == "pos" else f(a, b, check_method=m))
+                        mat[i][j] = _verdict(v)
             elif kind == "pair":
                 for i in idx:
                     for j, c in enumerate(cols):
@@ -1397,6 +1436,17 @@ def entry_calls(rnd, default_names):
                 calls.append(["pair", m, fl, st])
     if rnd is not None:
         rnd.shuffle(calls)
+    # the two direct entry points with arguments left out; no random choice is consumed (the calls above keep their order for a
+    # given seed): style by position in the list, inserted at fixed places of the shuffled order
+    direct = [["direct", None, None, "omitted"], ["direct_taut", None, None, "omitted"]]
+    for k, m in enumerate(METHODS):
+        for st in (["pos", "kw"][(k + len(calls)) % 2:][:1] if rnd is not None else ["kw", "pos"]):
+            direct.append(["direct", m, None, st])
+    direct.append(["direct_taut", METHODS[len(calls) % 2], None, "pos"])
+    if rnd is None:
+        direct.append(["direct_taut", METHODS[(len(calls) + 1) % 2], None, "kw"])
+    for k, d in enumerate(direct):
+        calls.insert((5 * k + 3) % (len(calls) + 1) if rnd is not None else len(calls), d)
     return calls
 
 
@@ -1483,9 +1533,10 @@ def entry_case(ctx, src, batch, answer=None, confirm=True, pre=None):
     for (kind, m, fl, st), mat in zip(calls, answer["calls"]):
         call = [kind, m, fl, st]
         m_eff = m or "RC"
-        ia, it = fl if fl is not None else (False, True)
+        ia, it = fl if fl is not None else (False, kind != "direct_taut")
         name = {"ref": "smiles_check" if it else "smiles_check over the reactant tautomers", "pair": "check_pair",
-                "validate": "validate_smiles"}[kind]
+                "validate": "validate_smiles", "direct": "smiles_check (ignore_aromaticity left out)",
+                "direct_taut": "smiles_check_tautomer (ignore_aromaticity left out)"}[kind]
         how = f"{name}[{st or 'direct'}](check_method={m if m is not None else 'not passed'}, " + \
               ("flags not passed" if fl is None else f"ignore_aromaticity={ia}, ignore_tautomers={it}") + ")"
         if isinstance(mat, str):
@@ -2250,6 +2301,269 @@ def malformed_problems(case):
     return out
 
 
+# ---------------------------------------------------------------- stream 13: explicit mapped hydrogens, sparse map numbers
+# A mapped reaction may be SPELLED with some of its hydrogens as explicit mapped atoms ([H:n]) - the notation of SynKit's own
+# mechanistic steps (/repo/Data/Testcase/mech.json.gz) and of the USPTO set with mapped hydrogens.  Such a hydrogen either takes
+# part in the reaction centre (it leaves one heavy atom and arrives at another: "migrating") or it does not (same heavy atom on
+# both sides: "spectator").  The corpus only has the first kind; every code path that treats hydrogens outside the centre
+# differently from the ones inside (ITS-based exporters, NormalizeAAM's folding convention, hcount bookkeeping) is only reached by
+# the second kind, and only distinguished when BOTH occur in one reaction.  This stream re-spells corpus reactions that way
+# (`explicit_h`: k spectators on random heavy atoms / every hydrogen of one heavy atom / additional migrating hydrogens paired
+# donor -> acceptor from the hydrogen-count changes of the reaction), vendors the repository's mechanism steps (MECH_HAND), gives a
+# quarter of the inputs map numbers outside 1..n (`sparse_renumber`: distinct values below 1000, gaps), and feeds the result to
+# EVERY stream that judges the canonicaliser / the normal forms, with the unchanged gates of those streams (the specification side
+# is computed per query from the Lean model `rxn.canon` / Lean `match.iso` / `rxn.balanced` / `rxn.standardize`):
+#   canon (both back-ends; model correspondence, ITS isomorphism, unmapped sides, fixed point, numbering independence),
+#   validator (renumberings, FixAAM, NormalizeAAM.fit - which folds spectators, so ITS only without hydrogens, centre always -,
+#   transpositions incl. two hydrogens of one atom), balance, standardize, sessions on one reused instance (the explicit spelling,
+#   the implicit spelling of the SAME reaction, a second explicit spelling with other hydrogens, renumbered copies, own output
+#   fed back), partially mapped sessions and non-default options over the explicit spellings, and __call__.
+# The wild card atoms of the mechanism file ([*-:9] = "a base") are written as hydroxide / water: RDKit's formula and SynKit's
+# graph conversion have no element for '*', which is outside the property's quantifier (mapped REACTIONS).
+MECH_HAND = [
+    ("mech:aldol_overall", "[CH3:1][CH:2]=[O:3].[CH:4]([H:7])([H:8])[CH:5]=[O:6]>>[CH3:1][CH:2]=[CH:4][CH:5]=[O:6].[O:3]([H:7])([H:8])"),
+    ("mech:base:1", "[CH:4]([H:7])([H:8])[CH:5]=[O:6].[OH-:9]>>[CH-:4]([H:8])[CH:5]=[O:6].[OH:9][H:7]"),
+    ("mech:base:2", "[CH3:1][CH:2]=[O:3].[CH-:4]([H:8])[CH:5]=[O:6]>>[CH3:1][CH:2]([O-:3])[CH:4]([H:8])[CH:5]=[O:6]"),
+    ("mech:base:3", "[CH3:1][CH:2]([O-:3])[CH:4]([H:8])[CH:5]=[O:6].[OH:9][H:7]>>[CH3:1][CH:2]([O:3][H:7])[CH:4]([H:8])[CH:5]=[O:6].[OH-:9]"),
+    ("mech:base:4", "[CH3:1][CH:2]([O:3][H:7])[CH:4]([H:8])[CH:5]=[O:6].[OH-:9]>>[CH3:1][CH:2]([O:3][H:7])[CH-:4][CH:5]=[O:6].[OH:9][H:8]"),
+    ("mech:base:5", "[CH3:1][CH:2]([O:3][H:7])[CH-:4][CH:5]=[O:6]>>[CH3:1][CH:2]=[CH:4][CH:5]=[O:6].[O-:3][H:7]"),
+    ("mech:base:6", "[O-:3][H:7].[OH:9][H:8]>>[O:3]([H:7])([H:8]).[OH-:9]"),
+    ("mech:neutral:1", "[CH:4]([H:7])([H:8])[CH:5]=[O:6]>>[CH:4]([H:8])=[CH:5][O:6]([H:7])"),
+    ("mech:neutral:2", "[CH3:1][CH:2]=[O:3].[CH:4]([H:8])=[CH:5][O:6]([H:7])>>[CH3:1][CH:2]([O:3][H:7])[CH:4]([H:8])[CH:5]=[O:6]"),
+    ("mech:neutral:3", "[CH3:1][CH:2]([O:3][H:7])[CH:4]([H:8])[CH:5]=[O:6]>>[CH3:1][CH:2]([O:3][H:7])[CH:4]=[CH:5][O:6]([H:8])"),
+    ("mech:neutral:4", "[CH3:1][CH:2]([O:3][H:7])[CH:4]=[CH:5][O:6]([H:8])>>[CH3:1][CH:2]=[CH:4][CH:5]=[O:6].[O:3]([H:7])([H:8])"),
+    ("mech:acid:1", "[CH:4]([H:7])([H:8])[CH:5]=[O:6].[H+:9]>>[CH:4]([H:8])=[CH:5][O:6]([H:9]).[H+:7]"),
+    ("mech:acid:2", "[CH3:1][CH:2]=[O:3].[CH:4]([H:8])=[CH:5][O:6]([H:9]).[H+:7]>>[CH3:1][CH:2]([O:3][H:7])[CH:4]([H:8])[CH:5]=[O:6].[H+:9]"),
+    ("mech:acid:3", "[CH3:1][CH:2]([O:3][H:7])[CH:4]([H:8])[CH:5]=[O:6].[H+:9]>>[CH3:1][CH:2]([O:3][H:7])[CH:4]=[CH:5][O:6]([H:9]).[H+:8]"),
+    ("mech:acid:4", "[CH3:1][CH:2]([O:3][H:7])[CH:4]=[CH:5][O:6]([H:9]).[H+:8]>>[CH3:1][CH:2]=[CH:4][CH:5]=[O:6].[H+:9].[O:3]([H:7])([H:8])"),
+]
+
+
+def h_census(rs):
+    """(spectators, migrating) among the explicit mapped hydrogens of a fully mapped reaction: a hydrogen is a spectator when its
+    heavy neighbour carries the same map number on both sides (free H / H+ / H-H count as migrating unless unchanged)."""
+    mr, mp = side_mols(rs)
+    if mr is None or mp is None:
+        return 0, 0
+
+    def nb(m):
+        return {a.GetAtomMapNum(): tuple(sorted(x.GetAtomMapNum() for x in a.GetNeighbors()))
+                for a in m.GetAtoms() if a.GetAtomicNum() == 1 and a.GetAtomMapNum()}
+
+    a, b = nb(mr), nb(mp)
+    spect = sum(1 for k in a if k in b and a[k] == b[k] and a[k])
+    return spect, len(set(a) | set(b)) - spect
+
+
+def fold_spectators(rs):
+    """The reaction with every explicit mapped hydrogen that sits on the SAME heavy atom on both sides written as a hydrogen
+    count of that atom (the spelling NormalizeAAM.fit documents: hydrogens outside the centre implicit); atom order kept."""
+    from rdkit import Chem
+
+    mr, mp = side_mols(rs)
+
+    def heavy(m):
+        out = {}
+        for a in m.GetAtoms():
+            nb = a.GetNeighbors()
+            if a.GetAtomicNum() == 1 and a.GetAtomMapNum() and len(nb) == 1 and nb[0].GetAtomicNum() > 1 and nb[0].GetAtomMapNum():
+                out[a.GetAtomMapNum()] = nb[0].GetAtomMapNum()
+        return out
+
+    a, b = heavy(mr), heavy(mp)
+    drop = {k for k in a if b.get(k) == a[k]}
+    res = []
+    for m in (mr, mp):
+        m.UpdatePropertyCache(strict=False)
+        w = Chem.RWMol(m)
+        for at in list(w.GetAtoms()):
+            if at.GetAtomMapNum() in drop and at.GetAtomicNum() == 1:
+                x = at.GetNeighbors()[0]
+                x.SetNumExplicitHs(x.GetTotalNumHs() + 1)
+                x.SetNoImplicit(True)
+        for idx in sorted((at.GetIdx() for at in w.GetAtoms() if at.GetAtomMapNum() in drop and at.GetAtomicNum() == 1), reverse=True):
+            w.RemoveAtom(idx)
+        res.append(Chem.MolToSmiles(w, canonical=False))
+    return ">>".join(res)
+
+
+def explicit_h(rs, rnd, n_spect, n_migr, whole=False):
+    """Re-spell a fully mapped reaction: `n_spect` hydrogens that stay on their heavy atom (whole: instead every hydrogen of one
+    heavy atom whose hydrogen count does not change) and up to `n_migr` hydrogens that move from an atom that loses hydrogens to
+    one that gains them become explicit atoms with fresh map numbers (same number on both sides).  None when not applicable."""
+    from rdkit import Chem
+
+    mr, mp = side_mols(rs)
+    if mr is None or mp is None:
+        return None
+    for m in (mr, mp):
+        m.UpdatePropertyCache(strict=False)
+    ra = {a.GetAtomMapNum(): a for a in mr.GetAtoms()}
+    pa = {a.GetAtomMapNum(): a for a in mp.GetAtoms()}
+    if 0 in ra or 0 in pa or len(ra) != mr.GetNumAtoms() or len(pa) != mp.GetNumAtoms():
+        return None
+    shared = sorted(m for m in ra if m in pa and ra[m].GetAtomicNum() > 1)
+    h_r = {m: ra[m].GetTotalNumHs() for m in shared}
+    h_p = {m: pa[m].GetTotalNumHs() for m in shared}
+    plan = []  # (heavy atom on the reactant side, heavy atom on the product side)
+    if whole:
+        full = [m for m in shared if h_r[m] == h_p[m] and h_r[m] > 0]
+        if full:
+            m = rnd.choice(full)
+            plan += [(m, m)] * h_r[m]
+            h_r[m] = h_p[m] = 0
+    stay = [m for m in shared for _ in range(min(h_r[m], h_p[m]))]
+    rnd.shuffle(stay)
+    plan += [(m, m) for m in stay[:0 if (whole and plan) else n_spect]]
+    don = [m for m in shared for _ in range(max(0, h_r[m] - h_p[m]))]
+    acc = [m for m in shared for _ in range(max(0, h_p[m] - h_r[m]))]
+    rnd.shuffle(don)
+    rnd.shuffle(acc)
+    plan += list(zip(don, acc))[:n_migr]
+    if not plan:
+        return None
+    nxt = max(set(ra) | set(pa)) + 1
+    rw = [Chem.RWMol(mr), Chem.RWMol(mp)]
+    for pair in plan:
+        for w, heavy in zip(rw, pair):
+            at = next(a for a in w.GetAtoms() if a.GetAtomMapNum() == heavy)
+            at.SetNumExplicitHs(at.GetTotalNumHs() - 1)
+            at.SetNoImplicit(True)
+            h = Chem.Atom(1)
+            h.SetAtomMapNum(nxt)
+            h.SetNoImplicit(True)
+            w.AddBond(at.GetIdx(), w.AddAtom(h), Chem.BondType.SINGLE)
+            w.UpdatePropertyCache(strict=False)
+        nxt += 1
+    try:
+        return Chem.MolToSmiles(rw[0], canonical=False) + ">>" + Chem.MolToSmiles(rw[1], canonical=False)
+    except Exception:  # noqa: BLE001
+        return None
+
+
+def sparse_renumber(rs, rnd, top=1000):
+    """The same mapping with map numbers outside 1..n: distinct values below `top` in random order (gaps, multi-digit)."""
+    from rdkit import Chem
+
+    mr, mp = side_mols(rs)
+    maps = sorted({a.GetAtomMapNum() for m in (mr, mp) for a in m.GetAtoms() if a.GetAtomMapNum()})
+    d = dict(zip(maps, rnd.sample(range(1, max(top, 2 * len(maps))), len(maps))))
+    for m in (mr, mp):
+        for a in m.GetAtoms():
+            if a.GetAtomMapNum():
+                a.SetAtomMapNum(d[a.GetAtomMapNum()])
+    return Chem.MolToSmiles(mr, canonical=False) + ">>" + Chem.MolToSmiles(mp, canonical=False)
+
+
+def hspell_one(rnd, r):
+    """One explicit-hydrogen spelling of r with at least one spectator hydrogen (parameters drawn), or None."""
+    whole = rnd.random() < 0.25
+    v = explicit_h(r, rnd, rnd.choice([1, 1, 2, 3, 5]), rnd.choice([0, 1, 2]), whole)
+    if v is None or parse_rxn(v) is None or h_census(v)[0] == 0:
+        return None
+    return v
+
+
+def hspell_pool(ctx, base, n):
+    """-> list of (source, explicit-hydrogen spelling, implicit spelling it was made from (None: hand-written))."""
+    rnd = ctx.rnd
+    out = []
+    for s, r in MECH_HAND:
+        out.append((s, r if rnd.random() < 0.5 else renumber(r, rnd, canonical=rnd.random() < 0.5), None))
+        ctx.count("hspell:hand")
+    tries = 0
+    base = list(base)
+    rnd.shuffle(base)
+    for s, r in base:
+        if len(out) >= n + len(MECH_HAND):
+            break
+        v = hspell_one(rnd, r)
+        tries += 1
+        if v is None:
+            ctx.count("hspell:not_applicable")
+            continue
+        if rnd.random() < 0.25:
+            v = sparse_renumber(v, rnd)
+            ctx.count("hspell:sparse_map_numbers")
+        out.append(("hspell:" + s, v, r))
+    for s, v, r in out:
+        sp, mg = h_census(v)
+        ctx.count("hspell:pool")
+        ctx.count(f"hspell:spectators:{min(sp, 6)}{'+' if sp >= 6 else ''}")
+        ctx.count(f"hspell:centre_hydrogens:{min(mg, 4)}{'+' if mg >= 4 else ''}")
+        if sp and mg:
+            ctx.count("hspell:spectator_next_to_centre_hydrogen")
+    return out
+
+
+def gen_session_h(rnd, triples, n_react, n_steps):
+    """History over `n_react` reactions given in an explicit-hydrogen spelling: per reaction the spelling twice, the implicit
+    spelling it was made from, a second explicit spelling (other hydrogens), another outcome of the same reactant side, a
+    renumbered copy (sparse numbers with probability 0.5), its own canonical output fed back; shuffled, first occurrence first."""
+    toks = []
+    for s, v, r in rnd.sample(triples, n_react):
+        toks += [("same", v, r), ("same", v, r), ("implicit", v, r), ("respell", v, r), ("other", v, r), ("renumber", v, r),
+                 ("feedback", v, r)]
+    rnd.shuffle(toks)
+    hist, first = [], {}
+    for kind, v, r in toks[:n_steps]:
+        if v not in first:
+            first[v] = len(hist)
+            hist.append(v)
+        elif kind == "same":
+            hist.append(v)
+        elif kind == "implicit":
+            hist.append(r if r is not None else renumber(v, rnd))
+        elif kind == "respell":
+            hist.append((hspell_one(rnd, r) if r is not None else None) or renumber(v, rnd, canonical=True))
+        elif kind == "other":
+            hist.append(other_outcome(v, rnd)[1])
+        elif kind == "renumber":
+            hist.append(sparse_renumber(v, rnd) if rnd.random() < 0.5 else renumber(v, rnd, canonical=rnd.random() < 0.5))
+        else:
+            hist.append({"feedback": first[v]})
+    return hist
+
+
+def hspell_streams(ctx, base_pool, lap):
+    """Everything of stream 13, generated after all other streams (they keep their cases for a given seed)."""
+    q = ctx.quick
+    rnd = ctx.rnd
+    hp = hspell_pool(ctx, [(s, r) for s, r in base_pool if n_atoms(r) <= 30], 26 if q else 240)
+    pairs = [(s, v) for s, v, _ in hp]
+    for backend in BACKENDS:
+        run_batch(ctx, [canon_case(ctx, backend, s, v, 2 if q else 4, tag="hspell") for s, v in pairs])
+    lap("hspell:canon")
+    sub = pairs[:4] + rnd.sample(pairs[4:], min(8 if q else 110, len(pairs) - 4))
+    run_batch(ctx, [validator_case(ctx, s, v, 2 if q else 4) for s, v in sub])
+    lap("hspell:validator")
+    run_batch(ctx, [balance_case(ctx, s, v) for s, v in pairs])
+    run_batch(ctx, [standardize_case(ctx, s, v, 3 if q else 6) for s, v in pairs])
+    lap("hspell:balance+standardize")
+    plan = []
+    for backend in BACKENDS:
+        for k in range(3 if q else 20):
+            plan.append(("session", {"backend": backend}, gen_session_h(rnd, hp, 2, 8 if q else 14)))
+    for backend in BACKENDS:
+        for k in range(2 if q else 12):
+            plan.append(("partial", {"backend": backend}, gen_partial(rnd, pairs, 4 if q else 6, backend, light_only=True)))
+    small = [t for t in hp if n_atoms(t[1]) <= 20]
+    for k in range(6 if q else 40):
+        o = gen_opts(rnd)
+        coarse = o["backend"] == "nauty" and not set(DEFAULT_ATTRS) <= set(o["node_attrs"])
+        tr = small if coarse else hp
+        plan.append(("config", o, gen_session_h(rnd, tr, 1, 4) if k % 2 == 0
+                     else gen_partial(rnd, [(s, v) for s, v, _ in tr], 3, o["backend"], light_only=True)))
+    for kind in ("session", "partial", "config"):
+        idx = [k for k, p in enumerate(plan) if p[0] == kind]
+        run_batch(ctx, [session_case(ctx, kind, f"hspell:{kind}:{k}", [{"opts": plan[k][1], "history": plan[k][2]}],
+                                     earlier=[{"opts": o, "history": h} for _, o, h in plan[:k]]) for k in idx])
+    lap("hspell:sessions")
+    run_batch(ctx, [canon_edge_case(ctx, s, {"mode": "call", "backend": rnd.choice(BACKENDS), "rsmi": v, "call": "call"})
+                    for s, v in (pairs if not q else rnd.sample(pairs, min(8, len(pairs))))])
+    lap("hspell:call")
+
+
 # ---------------------------------------------------------------- driver
 def load_regress():
     d = ROOT / "regress" / "C09"
@@ -2355,7 +2669,12 @@ def run(ctx):
         "accepted; accuracy / success_rate figures of validate_smiles are not gated (the property speaks of verdicts)",
         "NormalizeAAM.fit (anchored file without a clause of its own) is read as a normal form that only re-spells the mapping "
         "(kekulised, map numbers + 1 unless fix_aam_indice=False, hydrogens outside the centre folded): on reactions without explicit "
-        "hydrogen atoms its output must be ITS-isomorphic to the input, with them centre-isomorphic",
+        "hydrogen atoms its output must be ITS-isomorphic to the input, with them centre-isomorphic; when some explicit hydrogen is a "
+        "spectator (bonded to the same heavy atom on both sides) the folding changes hydrogen counts of heavy atoms, also of centre atoms, "
+        "so the output is compared (ITS and centre) with the input re-spelled by the harness with exactly those hydrogens folded",
+        "explicit-hydrogen spellings are inputs like any other: every gate is evaluated against the spelling that was queried (no gate "
+        "relates the answer for an explicit spelling to the answer for the implicit one); the wild-card atoms of the mechanism file are "
+        "written as hydroxide / water",
         "batch balance check: the order of the records inside the two lists is not gated; records without the reaction column and "
         "unsupported containers (tuple) may be skipped / refused - only answers that ARE given are gated; a record that carries its "
         "own key 'balanced' must still be answered by element counts (class " + CLASS_BAL_KEY + ")",
@@ -2383,7 +2702,9 @@ def run(ctx):
         "2 pairs of reactions with isomorphic centres) + 28/260 corpus reactions of <=26/45 atoms, three re-mappings each (renumbering, "
         "transposition of two centre atoms / twins / two hetero atoms X(H)-C=X / two product atoms of one element, a corpus reaction "
         "with the same centre signature, the reaction itself), grouped into tables of 1-5 records (+ one record twice, p=0.25), default "
-        "column names (p=0.4) or others with 1-3 of the columns in shuffled order; per table 8 reference calls, 11 validate_smiles and "
+        "column names (p=0.4) or others with 1-3 of the columns in shuffled order; per table 8 reference calls, 6 direct calls with "
+        "ignore_aromaticity left out (smiles_check with the method left out / RC / ITS by position or keyword, smiles_check_tautomer with the "
+        "method left out / one method; inserted at fixed places, no random choice), 11 validate_smiles and "
         "11 check_pair calls (method not passed / RC / ITS x flags not passed / 4 combinations; style kw / positional / DataFrame / "
         "default columns drawn per call), in a shuffled order. "
         "Inside stream 2: per reaction NormalizeAAM.fit(r) / fit(r, fix_aam_indice=False) (quick: one of the two on every second reaction, "
@@ -2401,7 +2722,16 @@ def run(ctx):
         "unmapped / both sides unmapped, reactant side empty, __call__; back-end drawn); 30/400 remap_graph calls on product graphs "
         "(kind cycled: full id list, full pairs, prefix of the id list, an id the graph lacks, partial pairs, empty) and as many "
         "get_aam_pairwise_indices calls (node ids permuted + 100, 15% of the atoms unmapped, default / other attribute name); "
-        "12/100 reactions with the left / right / both sides replaced by a rejected fragment (cycled).")
+        "12/100 reactions with the left / right / both sides replaced by a rejected fragment (cycled). "
+        "Stream 13 (generated last): 15 mechanism steps of Data/Testcase/mech.json.gz (base '*' written as hydroxide; half of them "
+        "renumbered) + 26/240 fully mapped corpus reactions of <=30 reactant atoms re-spelled with explicit mapped hydrogens: 1/1/2/3/5 "
+        "spectator hydrogens on random heavy atoms (p=0.25: every hydrogen of one heavy atom whose hydrogen count does not change) and "
+        "0/1/2 migrating hydrogens (donor = atom that loses hydrogens, acceptor = atom that gains them), fresh map numbers; p=0.25 all "
+        "map numbers replaced by distinct values below 1000; every input has >=1 spectator. All of them through canon (both back-ends, "
+        "2/4 variants), balance, standardize (3/6 variants), 12/114 through the validator stream (2/4 drawn transpositions), 8/all through "
+        "__call__; per back-end 3/20 histories of 8/14 queries over 2 reactions (explicit spelling twice, the implicit spelling it was "
+        "made from, a second explicit spelling, other outcome, renumbered / sparse copy, own output fed back), per back-end 2/12 partially "
+        "mapped histories of 4/6 queries (light reagents), 6/40 histories with random options.")
     ctx.nontrivial_rule = ("distinct (stream, back-end/method, reaction, variant); canon: >=3 reactant atoms and >=2 bonds; validator: "
                            "centre with >=2 atoms; balance: >=2 atoms on the left; standardize: >=2 fragments; sessions: distinct "
                            "(options, history up to the step), >=3 reactant atoms mapped on both sides' ITS and >=2 bonds; entry points: distinct "
@@ -2476,6 +2806,20 @@ def run(ctx):
     lap("canon_edge")
     malformed_stream(ctx, synthetic + small, 12 if q else 100)
     lap("malformed")
+    # stream 13 (explicit mapped hydrogens: spectators next to centre hydrogens; sparse map numbers) through the case functions of
+    # streams 1-7 and 11, generated after everything else
+    hspell_streams(ctx, pool, lap)
+    # stream 2 on the hand-written pairs of stream 8 (smiles_check is called there with ignore_aromaticity left out and the method by
+    # position): pairs whose centre verdict depends on the aromaticity flag, pairs that only the method tells apart, tautomer swaps
+    hand = []
+    for h in ENTRY_HAND:
+        other = h["other"] if "other" in h else transpose_product(h["truth"], *h["swap"])
+        hand.append(validator_case(ctx, "hand:" + h["name"], h["truth"], 0,
+                                   fixed=[("other_reaction_same_centre" if "other" in h else "transpose_tautomer_shift", other),
+                                          ("other_renumbered", renumber(other, ctx.rnd)),
+                                          ("renumber", renumber(h["truth"], ctx.rnd))]))
+    run_batch(ctx, hand)
+    lap("validator:hand_pairs")
     ctx.extra["stream_wall_s"] = walls
 
     known = load_known(ctx.pid)
@@ -2505,6 +2849,12 @@ def run(ctx):
                    stream_ok("canon_edge"))
     ctx.obligation("a side that RDKit rejects: balance check does not answer True, validator entry points do not accept, FixAAM raises",
                    stream_ok("malformed"))
+    ctx.obligation("explicit mapped hydrogens (spectators that stay on their heavy atom next to hydrogens of the centre; mechanism steps "
+                   "of Data/Testcase/mech.json.gz; map numbers with gaps): canonicaliser (both back-ends, reused instances, partially "
+                   "mapped, non-default options, __call__), validator + NormalizeAAM / FixAAM re-spellings, balance and Standardize meet "
+                   "the gates of streams 1-7 on them", not any(
+                       isinstance(v["case"], dict) and (str(v["case"].get("source", "")).startswith(("hspell:", "mech:")))
+                       and match_known(v, known) is None for v in ctx.violations))
     ctx.obligation("validator entry points check_pair / validate_smiles (list of dicts, DataFrame, default column names; methods RC, "
                    "ITS, default; flags not passed and in all four combinations; by keyword / position): every verdict == "
                    "smiles_check (over the reactant tautomers when ignore_tautomers=False) with the same method and flags == Lean iso "
